@@ -330,7 +330,7 @@ def run(rec, tier, seed):
     rec.exhaustive.append("taint matrix (every taint x evaluation program x input flag) and print matrix (value maker x printer x output flag)")
     campaign.parallel(rec, _shard_fn, [(s, ns * 2, quick) for s in range(ns * 2)])
     rec.exhaustive.append("function-argument matrix: every element key and modifier x lambda payloads (print / E / † on tainted text) in every argument position")
-    n = 150 if quick else 8000
+    n = 150 if quick else 3000
     campaign.parallel(rec, _shard_hyp, [(seed * 1000 + i, n) for i in range(ns)])
 
 
